@@ -147,6 +147,92 @@ def md_entries(t, axis, canon):
     return out
 
 
+def canon_typed(v):
+    """a metadata value / frame cell by KIND and text: text stays text ('0012' is not 12), booleans are not numbers,
+    numbers compare by value (pandas may hold an int column as floats)"""
+    import json
+    v = core.canon_value(v)
+    if isinstance(v, bool):
+        return "bool:%s" % v
+    if isinstance(v, (int, float)):
+        if v != v:
+            return "num:nan"
+        if v in (float("inf"), float("-inf")):
+            return "num:%s" % v
+        return "num:" + core.frac(v)
+    if isinstance(v, str):
+        return "str:" + v
+    if v is None:
+        return "none"
+    return "json:" + json.dumps(v, sort_keys=True, ensure_ascii=False)
+
+
+NUMTEXT = ["0012", "007", "1e3", "5.10", "+3", "-0", ".5", "1E-2", "00", "3.", "1e+2", "-7.50", "0.0", "10", "2"]
+NANTEXT = ["nan", "NaN", "inf", "-inf", "Infinity", "-Infinity", "NAN"]
+BLANKTEXT = [" 5", "5 ", " 12 ", "7  ", "  0.50"]
+ODDTEXT = ["1_000", "0x10", "1,5", "", " ", "None", "null", "NA", "1e", "--3"]
+BOOLTEXT = ["True", "False", "true", "false", "TRUE"]
+MD_CLASSES = ["numtext", "numtext", "nantext", "blanknum", "numtextbutone", "oddtext", "booltext", "ints", "floats",
+              "bools", "intstr", "boolint", "numtaxonomy"]
+
+
+def md_column(rng, cls, n):
+    """n values of one metadata category"""
+    pick = lambda pool: [rng.choice(pool) for _ in range(n)]          # noqa
+    if cls == "numtext":
+        return pick(NUMTEXT)
+    if cls == "nantext":
+        return pick(NANTEXT + NUMTEXT[:3])
+    if cls == "blanknum":
+        return pick(BLANKTEXT + NUMTEXT[:4])
+    if cls == "numtextbutone":
+        v = pick(NUMTEXT)
+        v[rng.randrange(n)] = rng.choice(["x12", "12x", "n/a"])
+        return v
+    if cls == "oddtext":
+        return pick(ODDTEXT + NUMTEXT[:2])
+    if cls == "booltext":
+        return pick(BOOLTEXT)
+    if cls == "ints":
+        return [rng.randint(-3, 40) for _ in range(n)]
+    if cls == "floats":
+        return [rng.choice([0.5, 10.0, -1.5, 2.25, 1e-07, 3.0]) for _ in range(n)]
+    if cls == "bools":
+        return [rng.random() < 0.5 for _ in range(n)]
+    if cls == "intstr":
+        v = [rng.randint(0, 9) for _ in range(n)]
+        v[rng.randrange(n)] = rng.choice(["x", "007"])
+        return v
+    if cls == "boolint":
+        v = [rng.randint(0, 3) for _ in range(n)]
+        v[rng.randrange(n)] = True
+        return v
+    raise ValueError(cls)
+
+
+def enrich_md(rng, spec, axes=("obs", "samp"), classes=None):
+    """extra metadata categories whose values are numeric-looking text, look-alikes of nan/inf/booleans, blanks, real
+    ints/floats/bools and mixed columns (same categories, same order on every ID of the axis)"""
+    for key in axes:
+        ids = spec[key]
+        mk = "omd" if key == "obs" else "smd"
+        if len(ids) == 0:
+            continue
+        md = spec.get(mk)
+        if md is None:
+            md = [{} for _ in ids]
+        cls = classes or rng.sample(MD_CLASSES, rng.randint(1, 3))
+        for c in cls:
+            if c == "numtaxonomy":
+                for e in md:
+                    e["taxonomy"] = [rng.choice(NUMTEXT), rng.choice(NUMTEXT)]
+                continue
+            for e, v in zip(md, md_column(rng, c, len(ids))):
+                e[c] = v
+        spec[mk] = md
+    return spec
+
+
 def canon_json(v):
     import json
     return json.dumps(core.canon_value(v), sort_keys=True, ensure_ascii=False)
@@ -469,11 +555,13 @@ class Checker:
     def mdframes(self, t, inp, tag, tags):
         for axis in ("sample", "observation"):
             ids = [str(x) for x in t.ids(axis=axis)]
-            md = md_entries(t, axis, canon_json)
+            md = md_entries(t, axis, canon_typed)
             try:
                 df = t.metadata_to_dataframe(axis)
+                # cell by cell (a 2-d `.values` would fold the columns into one common dtype)
                 res = {"ok": {"index": [str(x) for x in df.index], "columns": [str(x) for x in df.columns],
-                              "rows": [[canon_json(v) for v in row] for row in df.values.tolist()]}}
+                              "rows": [[canon_typed(df.iloc[i, j]) for j in range(df.shape[1])]
+                                       for i in range(df.shape[0])]}}
             except Exception as e:  # noqa
                 res = {"error": core.err_name(e)}
             self.ctx.count("mdframe=%s" % ("ok" if "ok" in res else res["error"]))
@@ -782,6 +870,11 @@ def fixed_corpus():
                                                  ["s4", "s3", "s2", "s1"])))
     out.append(("head-empty-lead", lambda: Table(np.array([[0.0, 0, 3], [1, 2, 0], [0, 0, 0], [0, 0, 7]]),
                                                   ["a", "b", "c", "d"], ["x", "y", "z"])))
+    out.append(("md-numeric-text", lambda: Table(
+        np.array([[1.0, 0, 2], [0, 3, 4]]), ["o1", "o2"], ["s1", "s2", "s3"],
+        [{"barcode": "0012", "well": "1e3", "n": 3, "ok": True}, {"barcode": "007", "well": "5.10", "n": 4, "ok": False}],
+        [{"plate": "00", "dose": "+3", "taxonomy": ["01", "2e1"]}, {"plate": "-0", "dose": ".5", "taxonomy": ["1", "3."]},
+         {"plate": "10", "dose": " 5", "taxonomy": ["007", "1E-2"]}])))
     out.append(("print-tie-0.0625", lambda: Table(np.array([[0.0625, 0.0], [0.0, 0.1875]]), ["a", "b"], ["x", "y"])))
     return out
 
@@ -812,6 +905,8 @@ def gen_table(rng, quick):
         spec = core.gen_spec(rng, max_n=mx, max_m=mx, classes=classes, md=True, density=dens)
     if rng.random() < 0.35:
         trick_ids(rng, spec)
+    if rng.random() < 0.45:
+        enrich_md(rng, spec)
     route = rng.choice(core.ROUTES)
     post = rng.choice(POSTS)
     return spec, route, post, classes
@@ -941,6 +1036,15 @@ def run(ctx):
             for fmt in ("hdf5", "json"):
                 for n, m in [(3, 2), (2, 1), (None, None)]:
                     chk.head(t, inp, "fixed:head-empty-lead/" + fmt, ("fixed", "head"), fmt, n, m, to_file=False)
+        for fmt in ("json", "hdf5"):
+            for which in ("both", "sample", "observation"):
+                k_det += 1
+                if not ctx.mine(k_det):
+                    continue
+                chk.recipe = {"kind": "fixed", "name": "md-numeric-text", "post": "none"}
+                t = from_recipe(chk.recipe)
+                chk.export_md(t, input_obs(t), "fixed:md-numeric-text/%s/%s" % (fmt, which), ("fixed", "export"), fmt,
+                              which=which)
         # wide tables: size-dependent fast paths (>= 64 IDs on an axis)
         for wk, waxis in enumerate(["sample", "observation", "sample", "observation"]):
             k_det += 1
@@ -970,7 +1074,7 @@ def run(ctx):
                 ctx.count("route=%s" % route)
                 ctx.count("post=%s" % post)
         # 3. random tables
-        n_tables = 250 if ctx.quick() else 10000 // ctx.worker[1]
+        n_tables = 220 if ctx.quick() else 10000 // ctx.worker[1]
         cli_share = 0.15 if ctx.quick() else 0.1
         hist_share = 0.6
         for k in range(n_tables):
